@@ -343,6 +343,11 @@ func (ex *Exec) cancelCall(st *State, f Val) {
 }
 
 func (c *ExtCtx) newCtx(parent Val, prefix string) Val {
+	return c.newCtxMd(parent, prefix, "")
+}
+
+// newCtxMd: child context; incoming metadata inherited from the parent unless mdIn is given
+func (c *ExtCtx) newCtxMd(parent Val, prefix string, mdIn string) Val {
 	ref := c.ex.allocRef()
 	c.st.assume("(= (ctx_parent " + ref + ") " + parent.T + ")")
 	c.st.write("ctxdone", "Bool", ref, c.st.read("ctxdone", "Bool", parent.T))
@@ -354,7 +359,11 @@ func (c *ExtCtx) newCtx(parent Val, prefix string) Val {
 	}
 	c.ex.ancestors[ref] = anc
 	// values (incoming/outgoing metadata, transport stream) are inherited unless overridden
-	c.st.assume("(= (ctx_md_in " + ref + ") (ctx_md_in " + parent.T + "))")
+	if mdIn == "" {
+		c.st.assume("(= (ctx_md_in " + ref + ") (ctx_md_in " + parent.T + "))")
+	} else {
+		c.st.assume("(= (ctx_md_in " + ref + ") " + mdIn + ")")
+	}
 	c.st.assume("(= (ctx_md_out " + ref + ") (ctx_md_out " + parent.T + "))")
 	c.st.assume("(= (ctx_has_md_out " + ref + ") (ctx_has_md_out " + parent.T + "))")
 	return c.ex.mkVal(parent.Typ, ref)
@@ -505,10 +514,8 @@ func init() {
 func init() {
 	// ---------- metadata (A-md) ----------
 	ext(pkgMetadata+".NewIncomingContext", "metadata.NewIncomingContext(p,md): child context c with incoming metadata md", func(c *ExtCtx) Val {
-		ref := c.newCtx(c.args[0], "inctx")
+		ref := c.newCtxMd(c.args[0], "inctx", c.args[1].T)
 		c.inheritDeadline(ref, c.args[0])
-		c.st.pc = c.st.pc[:len(c.st.pc)] // keep
-		c.st.assume("(= (ctx_md_in2 " + ref.T + ") " + c.args[1].T + ")")
 		return ref
 	})
 	ext(pkgMetadata+".FromIncomingContext", "metadata.FromIncomingContext(ctx): (md, ok) - unconstrained here", func(c *ExtCtx) Val {
